@@ -148,6 +148,7 @@ receiveLoop:
 	for {
 		select {
 		case msg, ok := <-leftMessages:
+			verifJoinMessageReceived(0)
 			if !ok {
 				leftDone = true
 				break receiveLoop
@@ -194,6 +195,7 @@ receiveLoop:
 			// TODO: Add backpressure
 
 		case msg, ok := <-rightMessages:
+			verifJoinMessageReceived(1)
 			if !ok {
 				leftDone = false
 				break receiveLoop
